@@ -105,7 +105,7 @@ def Heap.get (h : Heap) (i : Nat) : V3 := h.getD i V3.zero
 
 inductive Kind where
   | op | face | angle | spline | oncurve | edge | circle | lcurve | dcurve | icurve
-  | grid | firstpt | face0 | sketchavg | shape | sphere | stack | joint | asm | other | facept3
+  | grid | firstpt | face0 | sketchavg | shape | sphere | stack | joint | asm | other | facept3 | oval | ringc
   deriving DecidableEq, Repr
 
 inductive Ent where
@@ -147,6 +147,25 @@ def applyL (t : RT) : List Ent → Heap → List Ent × Heap
   | e :: es, h =>
       let r1 := applyE t e h
       let r2 := applyL t es r1.2
+      (r1.1 :: r2.1, r2.2)
+end
+
+mutual
+/-- `ElementBase.shear(normal, origin, direction, angle)`: `for component in self.parts: component.shear(…)`.  No class
+    overrides it except `Point` and `Array`; an `AxisVector` inherits `Point.shear` and is moved like a point; the tree
+    itself is not changed (no inversion, and `.parts` of an interpolated curve still drops its cache) -/
+def shearE (f : V3 → V3) : Ent → Heap → Ent × Heap
+  | .pt i, h => (.pt i, h.modify i f)
+  | .dir i, h => (.dir i, h.modify i f)
+  | .arr is, h => (.arr is, is.foldl (fun h i => h.modify i f) h)
+  | .node k a ch, h =>
+      let r := shearL f ch h
+      (.node k (touchAttr k a) r.1, r.2)
+def shearL (f : V3 → V3) : List Ent → Heap → List Ent × Heap
+  | [], h => ([], h)
+  | e :: es, h =>
+      let r1 := shearE f e h
+      let r2 := shearL f es r1.2
       (r1.1 :: r2.1, r2.2)
 end
 
@@ -245,7 +264,7 @@ def shapeLikeCenterV : VEnt → Option V3
 inductive CRule where
   | position | avgRows | zero | curveOf | avgDiscretize | lineMid | circleOrigin | facePoints | opPoints
   | avgOpCenters | partPoint (attr : String) (fromEnd : Nat) | stackOps | avgShapeCenters | gridCorners
-  | firstFacePoint | firstFaceCenter | avgFaceCenters | observed | firstFacePoint3
+  | firstFacePoint | firstFaceCenter | avgFaceCenters | observed | firstFacePoint3 | ovalMid
   deriving DecidableEq, Repr
 
 /-- the expression of the source the rule transcribes (bound names `v0, v1, …`) -/
@@ -269,6 +288,7 @@ def CRule.src : CRule → String
   | .avgFaceCenters => "np.average([v0.center for v0 in self.faces], axis=0)"
   | .observed => "?"
   | .firstFacePoint3 => "self.faces[0].points[3].position"
+  | .ovalMid => "(self.faces[0].points[0].position + self.faces[5].points[0].position) / 2"
 
 /-- which rule an entity of a kind runs -/
 def ruleOf : Kind → CRule
@@ -291,6 +311,8 @@ def ruleOf : Kind → CRule
   | .sketchavg => .avgFaceCenters
   | .other => .observed
   | .facept3 => .firstFacePoint3
+  | .oval => .ovalMid
+  | .ringc => .partPoint "_center" 1
 
 /-- evaluation of a rule on a node (`oc`: the observed centre for entities without a modelled rule);
     `curveOf` is resolved by `centerV` -/
@@ -323,6 +345,13 @@ def CRule.eval (oc : Option V3) (r : CRule) (e : VEnt) : Option V3 :=
   | .avgFaceCenters => some (avg (ch.map faceCenterV))
   | .observed => oc
   | .firstFacePoint3 => (ch.head?).bind (fun f0 => (facePtsV f0)[3]?)
+  | .ovalMid =>
+      match ch[0]?, ch[5]? with
+      | some f0, some f5 =>
+          match (facePtsV f0).head?, (facePtsV f5).head? with
+          | some a, some b => some (V3.smul (1 / 2) (a + b))
+          | _, _ => none
+      | _, _ => none
 
 /-- centre of the curve an `OnCurve`/`Spline` edge holds -/
 def curveCenterV (oc : Option V3) (c : VEnt) : Option V3 :=
@@ -402,9 +431,9 @@ def schema : List Row := [
   ⟨"Operation", [.op], [one "bottom_face" .face, one "top_face" .face, many "side_edges" .edgeData 4 (some 4)]⟩,
   ⟨"Origin", [.edge], [one "origin" .pt]⟩,
   ⟨"Point", [], [one "self" .any]⟩,
-  ⟨"QuarterSplineRing", [.other], [many "super().parts" .face 1, one "_center" .pt]⟩,
+  ⟨"QuarterSplineRing", [.ringc], [many "super().parts" .face 1, one "_center" .pt]⟩,
   ⟨"Shape", [.shape], [many "operations" .op 1]⟩,
-  ⟨"Sketch", [.grid, .firstpt, .face0, .sketchavg, .other, .facept3], [many "faces" .face 1]⟩,
+  ⟨"Sketch", [.grid, .firstpt, .face0, .sketchavg, .other, .facept3, .oval], [many "faces" .face 1]⟩,
   ⟨"Spline", [.spline], [one "curve" .curve]⟩,
   ⟨"Stack", [.stack], [many "shapes" .shape 1]⟩]
 
@@ -432,12 +461,15 @@ def rowsFor (k : Kind) : List Row := schema.filter (fun r => r.kinds.contains k)
 def wfNode (k : Kind) (ch : List VEnt) : Bool :=
   k == .other || (rowsFor k).any (fun r => matchSlots r.slots ch)
 
+/-- `Array.__init__` refuses a point list of fewer rows (`len(self.points) <= 1`) -/
+def arrayMinRows : Nat := 2
+
 mutual
-/-- the whole tree follows the schema; point arrays are not empty -/
+/-- the whole tree follows the schema; point arrays have the rows their constructor insists on -/
 def wfV : VEnt → Bool
   | .pt _ => true
   | .dir _ => true
-  | .arr vs => !vs.isEmpty
+  | .arr vs => decide (arrayMinRows ≤ vs.length)
   | .node k _ ch => wfNode k ch && wfVL ch
 def wfVL : List VEnt → Bool
   | [] => true
@@ -450,11 +482,12 @@ def centerRows : List (String × CRule) := [
   ("DiscreteCurve", ruleOf .dcurve), ("DiskBase", ruleOf .firstpt), ("EdgeData", ruleOf .edge),
   ("EighthSphere", ruleOf .sphere), ("Face", ruleOf .face), ("Grid", ruleOf .grid), ("JointBase", ruleOf .joint),
   ("LineCurve", ruleOf .lcurve), ("MappedSketch", ruleOf .sketchavg), ("OnCurve", ruleOf .oncurve),
-  ("OneCoreDisk", ruleOf .face0), ("Operation", ruleOf .op), ("Point", .position), ("Shape", ruleOf .shape),
+  ("OneCoreDisk", ruleOf .face0), ("Operation", ruleOf .op), ("Oval", ruleOf .oval), ("Point", .position),
+  ("QuarterSplineRing", ruleOf .ringc), ("Shape", ruleOf .shape),
   ("Spline", ruleOf .spline), ("SplineRound", ruleOf .facept3), ("Stack", ruleOf .stack), ("WrappedDisk", ruleOf .face0)]
 
 /-- classes whose `center` is not transcribed (abstract, or the observed value is used) -/
-def observedCenters : List String := ["ElementBase", "Oval", "PointCurveBase", "QuarterSplineRing", "Sketch"]
+def observedCenters : List String := ["ElementBase", "PointCurveBase", "Sketch"]
 
 /-- a real object of class row `P` (the class whose `parts` runs) and centre class `C` (the class whose `center`
     runs) may carry kind `k` -/
@@ -631,6 +664,7 @@ def kindOfStr : String → Option Kind
   | "dcurve" => some .dcurve | "icurve" => some .icurve | "grid" => some .grid | "firstpt" => some .firstpt | "face0" => some .face0
   | "sketchavg" => some .sketchavg | "shape" => some .shape | "sphere" => some .sphere | "stack" => some .stack
   | "joint" => some .joint | "asm" => some .asm | "other" => some .other | "facept3" => some .facept3
+  | "oval" => some .oval | "ringc" => some .ringc
   | _ => none
 
 def Kind.str : Kind → String
@@ -638,6 +672,7 @@ def Kind.str : Kind → String
   | .edge => "edge" | .circle => "circle" | .lcurve => "lcurve" | .dcurve => "dcurve" | .icurve => "icurve"
   | .grid => "grid" | .firstpt => "firstpt" | .face0 => "face0" | .sketchavg => "sketchavg" | .shape => "shape" | .sphere => "sphere"
   | .stack => "stack" | .joint => "joint" | .asm => "asm" | .other => "other" | .facept3 => "facept3"
+  | .oval => "oval" | .ringc => "ringc"
 
 /-- post-order token of a tree: `P<i>`, `D<i>`, `A<i;j;…>`, `N:<kind>:<attr>:<number of parts>` -/
 def parseTok (st : List Ent) (tok : String) : Option (List Ent) :=
@@ -792,9 +827,27 @@ def handleShear (args : List String) : Option String :=
       some ("ok " ++ " ".intercalate (ps.map (fun p => (shearP n o d sn sd c p).toStr)))
   | _ => none
 
+/-- `c09.shearent <n> <o> <d> <sn> <sd> <cot> <ncells> <cell…> <tok…>` → the sheared entity, resolved, in post-order -/
+def handleShearEnt (args : List String) : Option String :=
+  match args with
+  | n :: o :: d :: sn :: sd :: c :: nc :: rest => do
+      let n ← parseV3? n; let o ← parseV3? o; let d ← parseV3? d
+      let sn ← parseRat? sn; let sd ← parseRat? sd; let c ← parseRat? c
+      let nc ← parseNat? nc
+      if rest.length < nc then none
+      let h ← (rest.take nc).mapM parseV3?
+      let e ← parseTree (rest.drop nc)
+      if (cellsE e).any (fun i => i ≥ h.length) then none
+      let ok (s : Rat) (v : V3) : Bool := s > 0 && absQ (s * s - V3.dot v v) ≤ (1 / 1000000000) * (1 + V3.dot v v)
+      if !(ok sn n && ok sd d) then some "bad-witness" else
+      let r := shearE (shearP n o d sn sd c) e h
+      some ("ok " ++ " ".intercalate (showE r.2 r.1))
+  | _ => none
+
 def handle (op : String) (args : List String) : Option String :=
   match op with
   | "c09.shear" => handleShear args
+  | "c09.shearent" => handleShearEnt args
   | "c09.run" => handleRun args
   | "c09.prim" => handlePrim args
   | "c09.wf" => handleWf args
